@@ -392,6 +392,25 @@ def typestate(prog: Program, rep, x: ExcFlow, only_flow: bool = False):
             if nm in c.methods:
                 scope_funcs.add(c.methods[nm])
     dc = prog.func("pygradflow.solver.Solver._deriv_check")
+    # helpers that did not exist on the pinned tree and are only handed the (validated) iterates their scope-function callers were
+    # given - a hook of a template method, an extracted bound computation - are in scope as well
+    from ..inline import known_functions
+    known_ = known_functions()
+    grew = True
+    while grew:
+        grew = False
+        for f in list(scope_funcs):
+            if f is sv:
+                continue
+            for c_ in own_nodes(f.node):
+                if not isinstance(c_, ast.Call):
+                    continue
+                for g in prog.resolve_call_target(f, c_):
+                    if isinstance(g, FuncInfo) and g not in scope_funcs and g.qualname not in known_ and prog.in_scope(g):
+                        args_ = list(c_.args) + [k.value for k in c_.keywords]
+                        if all((isinstance(a, ast.Name) and a.id in f.params) or not (it in prog.infer_type(f, a)) for a in args_):
+                            scope_funcs.add(g)
+                            grew = True
 
     # which Iterate members are safe on a validated receiver
     unsafe_members = sorted(m.name for m in it.methods.values() if _esc_classes(x2, m.qualname, (EVAL,)))
